@@ -18,7 +18,46 @@ def sel(p, doc):
     return enc.outcome(lambda: enc.enc_val(p.get_data(doc, return_paths=True)))
 
 
+def spec_values(parts):
+    """every key / index value mentioned by the parts (for targeted probe documents)"""
+    out = []
+    for p in parts:
+        if p[0] == "prim":
+            out.append(p[1])
+        else:
+            for f in ("key", "index", "value"):
+                s = p[1][f]
+                if s is not None and s[0] == "v":
+                    out.append(s[1])
+    return out
+
+
+def targeted_docs(parts):
+    """documents holding, at every level, children under each mentioned key and enough list items"""
+    vals = [v for v in spec_values(parts) if isinstance(v, (str, int, float)) or v is None]
+    keys = list(dict.fromkeys(vals + ["a", 0, 1, 2]))
+
+    def level(depth):
+        if depth == 0:
+            return "leaf"
+        d = {}
+        for k in keys:
+            try:
+                d[k] = level(depth - 1) if not isinstance(k, bool) else "b"
+            except TypeError:
+                pass
+        return d
+
+    def llevel(depth):
+        if depth == 0:
+            return "leaf"
+        return [llevel(depth - 1) if i % 2 == 0 else level(depth - 1) for i in range(4)]
+    n = min(len(parts), 3)
+    return [level(n), llevel(n)] if n else []
+
+
 def make_case(parts, docs, datum=None, multi=None, from_specs=False):
+    docs = list(docs) + targeted_docs(parts)
     desc = {"parts": [terms.part_desc(p) for p in parts], "datum": datum, "multi": multi}
     c = Case("to_part_specs", desc)
     mods = (f".{datum}()" if datum else "") + (f".{multi}()" if multi else "")
@@ -92,6 +131,27 @@ def generate(rng, n, tier):
             parts = [rng.choice([("prim", rng.choice(["a", "b", 0, 1, 1.5, True, "k1"])), bare(rng.choice(["map", "list", "molv"]))])
                      for _ in range(k)]
             from_specs = True
+        elif mode < 0.7:
+            # nearly serialisable: parts that look like plain keys / indices but are not what DataPath(key) builds
+            def near():
+                x = rng.random()
+                e = dict(bare("map")[1])
+                if x < 0.2:
+                    return ("molv", dict(e, key=("v", rng.choice(["first", "a", 1, 2])), index=("v", rng.choice([0, 1, 2]))))
+                if x < 0.35:
+                    return ("map", dict(e, key=("v", rng.choice([0, 1, 3]))))
+                if x < 0.5:
+                    return ("list", dict(e, index=("v", rng.choice([0, 1]))))
+                if x < 0.6:
+                    return ("map", dict(e, key=("v", rng.choice(["a", "b"])), label="lbl"))
+                if x < 0.7:
+                    return ("molv", dict(e, key=("v", "a")))
+                if x < 0.85:
+                    return bare(rng.choice(["map", "list", "molv"]))
+                return ("prim", rng.choice(["a", "b", 0, 1]))
+            parts = [near() for _ in range(max(k, 1))] + ([bare("map")] if rng.random() < 0.7 else [])
+            rng.shuffle(parts)
+            from_specs = False
         else:
             parts = [terms.gen_part(g, rng.choice([0.3, 0.6])) for _ in range(k)]
             from_specs = False
